@@ -913,7 +913,7 @@ func (b *TB) Preamble(out *strings.Builder) {
 	bodies = append(bodies, "((mkSlice (s.ref Int) (s.off Int) (s.len Int) (s.cap Int)))")
 	names = append(names, "(Iface 0)")
 	var ic strings.Builder
-	ic.WriteString("((nilIface)")
+	ic.WriteString("((nilIface) (otherIface (otherId Int))")
 	for _, c := range b.ifaceCtors {
 		fmt.Fprintf(&ic, " (box_%d (unbox_%d %s))", c.id, c.id, c.sort)
 	}
